@@ -194,6 +194,9 @@ def _decompress(
     dcomped += dcomp.flush()
     if len(dcomped) > max_size:
         raise zlib.error("decompressed data exceeds maximum size")
+    if not dcomp.eof:
+        # A file cut short still inflates to a prefix of the content.
+        raise zlib.error("incomplete or truncated zlib stream")
     return dcomped
 
 
